@@ -309,12 +309,12 @@ def _from_schema_rec(it, a, k):
 
 R.extern["hypothesis_jsonschema.from_schema"] = _from_schema_rec
 R.contract(HYP1 + "_build_custom_formats", args={"custom_formats": Opq("Any"), "generation_config": Opq("Any")}, returns=Opq("Formats"), trusted=True, note="format name -> strategy table (string formats only narrow `type: string`)")
-PropS = OneOf(Const({"type": "string"}), Const({"type": "string", "pattern": "^a+$"}), Const({"type": "integer", "minimum": 1}), Const({"type": "string", "format": "date"}))
+_PosPropS = OneOf(Const({"type": "string"}), Const({"type": "string", "pattern": "^a+$"}), Const({"type": "integer", "minimum": 1}), Const({"type": "string", "format": "date"}))
 
 
 class _LocSchema(D):
     def make(self, it, name, idx=()):
-        props = {n: it.B._deepcopy(PropS.make(it, f"{name}.{n}"), {}) for n in ("a", "b") if it.path.choose([(False, True), (True, True)], f"has:{n}")}
+        props = {n: it.B._deepcopy(_PosPropS.make(it, f"{name}.{n}"), {}) for n in ("a", "b") if it.path.choose([(False, True), (True, True)], f"has:{n}")}
         it.path.bounded_inputs.add("location schemas with up to 2 properties out of 4 property schemas")
         return {"type": "object", "properties": props, "required": [n for n in props if n == "a"], "additionalProperties": False}
 
